@@ -166,6 +166,7 @@ type Interp struct {
 	clockLast      *Term
 	randStates     map[*Loc]*Term
 	stubbed        map[string]bool
+	stubRet        map[string]Value
 	sigFacts       []sigFact
 	randPre        []*Term // pre-allocated math/rand draws (nd.RandInts)
 	abstractArith  bool    // nd.AbstractArith(): see Solver.Abstract
@@ -221,6 +222,7 @@ func (in *Interp) resetPath(prefix []int) {
 	in.clockLast = nil
 	in.randStates = nil
 	in.stubbed = nil
+	in.stubRet = nil
 	in.sigFacts = nil
 }
 
